@@ -807,3 +807,39 @@ func replayMain(args []string) {
 		"transactions": ntx, "commits": ncommit, "steps": nsteps, "failures": nfail, "health": withHealth})
 	_ = os.Stdout
 }
+
+// renderMain: development aid. `res render <behaviours.ndjson> <id>` prints the transactions of one
+// behaviour in the format read by `res probe`.
+func renderMain(args []string) {
+	want, _ := strconv.Atoi(args[1])
+	_ = util.ReadLines(args[0], func(line []byte) error {
+		var b Beh
+		if err := json.Unmarshal(line, &b); err != nil {
+			return err
+		}
+		if b.ID != want {
+			return nil
+		}
+		var cur []Step
+		first := true
+		for _, s := range b.Steps {
+			if s.Op == "init" {
+				continue
+			}
+			if s.Op == "begin" {
+				cur = nil
+				continue
+			}
+			cur = append(cur, s)
+			if !endsTx(s) {
+				continue
+			}
+			if !first {
+				fmt.Println("----")
+			}
+			first = false
+			fmt.Print(render(b.Cfg, cur))
+		}
+		return nil
+	})
+}
